@@ -1,5 +1,7 @@
 import A2Verif.Lemmas.C07LawsFlat
 import A2Verif.Lemmas.C07LawsNib
+import A2Verif.Lemmas.C07LawsImd
+import A2Verif.Lemmas.C07LawsImg
 import A2Verif.Props.C07
 /-!
 # Property C07, round 3 — container independence with the store laws of EVERY container proved
@@ -10,7 +12,10 @@ laws as hypotheses for every format but DO/PO.  This file discharges them.  `Lem
 * NIB, WOZ1, WOZ2 (16 sectors 6&2, 13 sectors 5&3): `nibStore`, `nib_laws`, `nib_create_shows` — from
   `C08Track.image_read / image_write / image_invalid_refused / create_holds` (whole images at the bit level);
 * DO, D13, 2MG(DO): `doSecStore`, `d13SecStore`, `mgDoSecStore` — from the `StoreLaws` / `Refuses` of `Props/C08.lean`;
-* IMG, IMD, TD0: `Lemmas/C07LawsIbm.lean` (section "IBM kinds" below).
+* IMG: `imgSecStore` (`Lemmas/C07LawsImg.lean`, from `IbmImg.sector_laws`); IMD: `imdStore` (`Lemmas/C07LawsImd.lean`: per-track laws
+  from `C08.imd_read_sector / imd_write_sector / imd_absent_refused`, lifted to the whole object by `multi_laws`,
+  `Lemmas/C07LawsMulti.lean`).  TD0: the per-track laws are `C08.td0_read_after_write_and_frame`; their lifting through
+  `multi_laws` is not done (see design/C07.md).
 
 The theorems below have NO hypothesis about the formats: every store is the executable model of the container itself,
 every initial state is the model of its `create`.
@@ -303,5 +308,127 @@ example : (brun (store16 254 .woz2) locNib16 (fresh16 254 .woz2) exOps).1 =
 /-- … and what the executable DO model returns when evaluated directly on the 143 360-byte buffer (sector interface) -/
 example : (doSecStore.run doBlank [.w (0, 0, 4) (List.replicate 300 7), .r (0, 0, 4), .r (0, 0, 5), .r (35, 0, 0)]).1 =
     [some [], some (List.replicate 256 7), some (List.replicate 256 0), none] := by decide +kernel
+
+/-! ## IBM kinds (every `ibm_patterns` layout): IMG and IMD -/
+
+section ibm
+open A2Verif.Gen.C07 (LayoutName)
+open A2Verif.Model.AddrMap (geom lat Ibm)
+
+inductive FmtIbm
+  | img | imd
+deriving DecidableEq, Repr
+
+def szOf (ln : LayoutName) : Nat := lat ln.layout.sectorSize 0
+
+def storeIbm (ln : LayoutName) : FmtIbm → SecStore
+  | .img => imgSecStore (geom .imd ln) (szOf ln) (lat ln.layout.cylinders 0) ln.layout.sidesMax (lat ln.layout.sectors 0)
+  | .imd => imdStore (geom .imd ln) (fun _ => szOf ln)
+
+/-- `Img::create(kind)` / `Imd::create(kind)` -/
+def freshIbm (ln : LayoutName) : (f : FmtIbm) → (storeIbm ln f).St
+  | .img => imgBlank (szOf ln) (lat ln.layout.cylinders 0) ln.layout.sidesMax (lat ln.layout.sectors 0)
+  | .imd => imdCreate (geom .imd ln)
+
+/-- heads below 16 (so `HEAD_MASK` changes nothing) and pairwise different sector ids on every track, every layout -/
+theorem ibm_geom_fine : ∀ ln ∈ A2Verif.Gen.C07.ibmPatterns, geomFineB (geom .imd ln) = true := by decide +kernel
+
+theorem lawsIbm (ln : LayoutName) (hln : ln ∈ A2Verif.Gen.C07.ibmPatterns) (f : FmtIbm) : SecLaws (storeIbm ln f) := by
+  have hreg := A2Verif.C07.imd_geometry_regular ln hln
+  cases f
+  · exact img_laws _ _ _ _ _ (A2Verif.C07.img_imd_same_sectors ln hln).1 hreg (A2Verif.C07.img_imd_same_layout ln hln).2.2.1
+  · exact multi_laws imdMulti ImdTInv _ _ imd_multi_ok imd_trk_laws (geomOk_regular _ _ _ _ hreg)
+      (fun i hi _ => ((hreg i hi).2.2.2).symm)
+
+theorem freshIbm_shows (ln : LayoutName) (hln : ln ∈ A2Verif.Gen.C07.ibmPatterns) (f : FmtIbm) :
+    Shows (storeIbm ln f) (freshIbm ln f) (zeros fun _ => szOf ln) := by
+  have hreg := A2Verif.C07.imd_geometry_regular ln hln
+  cases f
+  · exact img_blank_shows _ _ _ _ _ (A2Verif.C07.img_imd_same_sectors ln hln).1 hreg (A2Verif.C07.img_imd_same_layout ln hln).2.2.1
+  · exact imd_create_shows _ _ (geomOk_regular _ _ _ _ hreg) (ibm_geom_fine ln hln) (fun i hi _ => ((hreg i hi).2.2.2).symm)
+
+theorem validIbm (ln : LayoutName) (f : FmtIbm) :
+    (storeIbm ln f).valid = validG (geom .imd ln) ∧ (storeIbm ln f).unit = fun _ => szOf ln := by
+  cases f <;> exact ⟨rfl, rfl⟩
+
+/-- **C07, sector level, IBM kinds: IMG vs IMD, every `ibm_patterns` layout, no hypotheses.**  The flat sector dump
+and the IMD object (track records searched with a rotating head and a cached buffer offset), freshly created for the
+same layout: every history of physical sector reads and writes (any cylinder / head / sector id, valid or not) returns
+the same on both, and afterwards every physical sector reads the same bytes. -/
+theorem container_independence_sectors_ibm (ln : LayoutName) (hln : ln ∈ A2Verif.Gen.C07.ibmPatterns) (f g : FmtIbm)
+    (ops : List SOp) (hb : ∀ op ∈ ops, op.Bytes) :
+    ((storeIbm ln f).run (freshIbm ln f) ops).1 = ((storeIbm ln g).run (freshIbm ln g) ops).1 ∧
+    ∀ a, validG (geom .imd ln) a = true →
+      ((storeIbm ln f).rd ((storeIbm ln f).run (freshIbm ln f) ops).2 a).1 =
+      ((storeIbm ln g).rd ((storeIbm ln g).run (freshIbm ln g) ops).2 a).1 := by
+  have hvf := validIbm ln f
+  have hvg := validIbm ln g
+  obtain ⟨e, m', h1, h2⟩ := sector_independence (storeIbm ln f) (storeIbm ln g) (lawsIbm ln hln f) (lawsIbm ln hln g)
+    (fun a => by rw [hvf.1, hvg.1]) (fun a _ => by rw [hvf.2, hvg.2]) _ _ _
+    (freshIbm_shows ln hln f) (freshIbm_shows ln hln g) ops hb
+  refine ⟨e, fun a ha => ?_⟩
+  exact shows_same_reads h1 h2 (fun a => by rw [hvf.1, hvg.1]) a (by rw [hvf.1]; exact ha)
+
+/-- FAT cluster → sectors: `Img::write_block` / `Imd::write_block` (`get_lsecs`, `fat_blocking`, per-sector checks:
+`C07.locateIbm`), then one `write_sector` per sector.  The guard "every located sector exists" is redundant — each
+piece passed `imgSector` / `geomSector` inside `ibmPieces` — and is only there to spare the proof of that. -/
+def locFat (c : Ibm) (ln : LayoutName) (blk : Block) : Option (List CHS) :=
+  match A2Verif.C07.locateIbm c ln blk with
+  | some as => if as.all (validG (geom .imd ln)) then some as else none
+  | none => none
+
+theorem locFat_valid (c : Ibm) (ln : LayoutName) (blk : Block) (as : List CHS) (h : locFat c ln blk = some as) :
+    ∀ a ∈ as, validG (geom .imd ln) a = true := by
+  unfold locFat at h
+  split at h
+  · split at h
+    · rename_i hall
+      simp only [Option.some.injEq] at h
+      subst h
+      exact fun a ha => (List.all_eq_true.mp hall) a ha
+    · cases h
+  · cases h
+
+def FmtIbm.ibm : FmtIbm → Ibm
+  | .img => .img
+  | .imd => .imd
+
+/-- **C07, block level, IBM FAT kinds: IMG vs IMD**: the same history of FAT cluster reads/writes (and sector
+operations) on both containers: same results, same content in every sector, same bytes from every cluster. -/
+theorem container_independence_blocks_ibm_fat (ln : LayoutName) (hln : ln ∈ A2Verif.Gen.C07.ibmPatterns) (f g : FmtIbm)
+    (ops : List (BOp Block)) (hb : ∀ op ∈ ops, op.Bytes) (hfat : ∀ op ∈ ops, ∀ r ∈ op.blocks, ∃ s n, r = .fat s n) :
+    (brun (storeIbm ln f) (locFat f.ibm ln) (freshIbm ln f) ops).1 =
+      (brun (storeIbm ln g) (locFat g.ibm ln) (freshIbm ln g) ops).1 ∧
+    (∀ a, validG (geom .imd ln) a = true →
+      ((storeIbm ln f).rd (brun (storeIbm ln f) (locFat f.ibm ln) (freshIbm ln f) ops).2 a).1 =
+      ((storeIbm ln g).rd (brun (storeIbm ln g) (locFat g.ibm ln) (freshIbm ln g) ops).2 a).1) ∧
+    ∀ s n, (rdBlock (storeIbm ln f) (locFat f.ibm ln) (brun (storeIbm ln f) (locFat f.ibm ln) (freshIbm ln f) ops).2 (.fat s n)).1 =
+      (rdBlock (storeIbm ln g) (locFat g.ibm ln) (brun (storeIbm ln g) (locFat g.ibm ln) (freshIbm ln g) ops).2 (.fat s n)).1 := by
+  have hvf := validIbm ln f
+  have hvg := validIbm ln g
+  have hagree : ∀ s n, locFat f.ibm ln (.fat s n) = locFat g.ibm ln (.fat s n) := by
+    intro s n
+    unfold locFat
+    rw [A2Verif.C07.locateIbm_fat_agree ln hln f.ibm g.ibm s n]
+  obtain ⟨e, ⟨m', h1, h2⟩, hr⟩ := block_independence (storeIbm ln f) (storeIbm ln g) (lawsIbm ln hln f) (lawsIbm ln hln g)
+    (fun a => by rw [hvf.1, hvg.1]) (fun a _ => by rw [hvf.2, hvg.2]) (locFat f.ibm ln) (locFat g.ibm ln)
+    (by rw [hvf.1]; exact locFat_valid f.ibm ln) (by rw [hvg.1]; exact locFat_valid g.ibm ln) _ _ _
+    (freshIbm_shows ln hln f) (freshIbm_shows ln hln g) ops hb
+    (fun op hop r hr => by obtain ⟨s, n, rfl⟩ := hfat op hop r hr; exact hagree s n)
+  exact ⟨e, fun a ha => shows_same_reads h1 h2 (fun a => by rw [hvf.1, hvg.1]) a (by rw [hvf.1]; exact ha),
+         fun s n => hr _ (hagree s n)⟩
+
+/-- non-vacuity: a FAT cluster crossing a track boundary on a 360K disk, located alike by both, guard passed -/
+example : locFat .img .IBM_DSDD_9 (.fat 17 2) = some [(0, 1, 9), (1, 0, 1)] ∧
+    locFat .imd .IBM_DSDD_9 (.fat 17 2) = some [(0, 1, 9), (1, 0, 1)] ∧
+    LayoutName.IBM_DSDD_9 ∈ A2Verif.Gen.C07.ibmPatterns := by decide +kernel
+
+/-- … and the executable IMD object evaluated directly: write sector 9 of cylinder 0 head 1, read it back with the
+head standing behind it, read a neighbour, ask for a sector id that is not on the track -/
+example : ((storeIbm .IBM_DSDD_9 .imd).run (freshIbm .IBM_DSDD_9 .imd)
+      [.w (0, 1, 9) [5, 6], .r (0, 1, 9), .r (0, 1, 1), .r (0, 1, 10), .r (40, 0, 1)]).1 =
+    [some [], some ([5, 6] ++ List.replicate 510 0), some (List.replicate 512 0), none, none] := by decide +kernel
+
+end ibm
 
 end A2Verif.C07All
